@@ -38,7 +38,7 @@ m = {
         "name": "verus-contracts",
         "path": "/verif/vx",
         "serves_properties": [c["property_id"] for c in checks],
-        "kind_free_text": "extractor + rewrite rules R1-R19/R4b-d (vx/gen.py), contracts and lemmas (contracts/*.vx, *.rs), Verus 0.2026.09.13 as the deductive verifier, verdict/evidence driver (vx/check.py)",
+        "kind_free_text": "extractor + rewrite rules R1-R20/R4b-e (vx/gen.py), contracts and lemmas (contracts/*.vx, *.rs), Verus 0.2026.09.13 as the deductive verifier, verdict/evidence driver (vx/check.py)",
     }],
     "checks": checks,
     "not_applicable": na,
